@@ -68,6 +68,13 @@ class SplineMethod(SamplingMethod):
             B = evalf(B)
         except:
             raise Exception("Only linear systems supported in SplineMethod")
+        # No affine part: the right-hand side must vanish for x=0, u=0 (whatever the parameters)
+        offset = ca.substitute([res['ode']],[args["x"],args["u"]],[DM.zeros(args["x"].sparsity()),DM.zeros(args["u"].sparsity())])[0]
+        if not ca.simplify(offset).is_zero():
+            raise Exception("Only linear systems supported in SplineMethod: the right-hand side has a constant/parametric offset " + str(offset))
+        # Every state must be the integral of another state or of a control
+        if A.size1()>0 and np.any(np.array(ca.sum2(ca.DM(A.sparsity()))+ca.sum2(ca.DM(B.sparsity())))==0):
+            raise Exception("SplineMethod: every state must have another state or a control as its derivative")
         # Obtain chains of differentiations (scalarised)
 
         # Use combined index: v=[x;u]
